@@ -583,6 +583,12 @@ def r11(ctx):
     ctx.floor("C14.R11", 2)
 
 
+def r12(ctx):
+    """a failed open takes no handle and leaves no trace: Store::load_replica_info marks a document open only when it could be
+    loaded (the load cells of C07.R13)"""
+    from . import C07
+    ctx.share("C14.R12", C07.r13, "C07.R13", keep=lambda k: "load[" in k, floor=4)
+
 def run(ctx):
     ctx.run_rule("C14.R1", r1)
     ctx.run_rule("C14.R2", r2)
@@ -595,3 +601,4 @@ def run(ctx):
     ctx.run_rule("C14.R9", r9)
     ctx.run_rule("C14.R10", r10)
     ctx.run_rule("C14.R11", r11)
+    ctx.run_rule("C14.R12", r12)
